@@ -25,6 +25,12 @@ structure RdRes where
   rest : List Bytes
 deriving DecidableEq, Repr
 
+/-- Apply `step` up to `n` times, stopping as soon as it changes nothing (the goroutine has finished, is
+blocked, or would spin): equal to `n` applications (`repeatStep_eq`), but cheap to execute. -/
+def repeatStep {σ : Type} [DecidableEq σ] (step : σ → σ) : Nat → σ → σ
+  | 0, s => s
+  | n + 1, s => if step s = s then s else repeatStep step n (step s)
+
 /-- One `Read(p)`, `len(p) = room`, over the remaining scripted chunks: a chunk longer than the
 buffer is returned in pieces; after the last chunk the tail; with `fused` the last chunk and the
 tail come back from the same call (`n > 0 && err != nil`). -/
@@ -43,9 +49,12 @@ def rdNext (pending : List Bytes) (fused : Bool) (room : Nat) : RdRes :=
             connection, which has `Close` but no `CloseWrite` (websocket / KCP / QUIC tunnel conn) — the way
             mapping/base.go, target_handler.go `createTunnelRWC` and socks5_tunnel.go build the tunnel side;
 * `split` — `NewReadWriteCloser(r, w, closeFn)` with distinct reader and writer objects, the writer has `Close` only;
-* `none`  — `NewReadWriteCloser(r, w, closeFn)`, the writer has neither `CloseWrite` nor `Close`. -/
+* `none`  — `NewReadWriteCloser(r, w, closeFn)`, the writer has neither `CloseWrite` nor `Close`;
+* `prod`  — like `same`, built by the REAL `getTunnelReaderWriter` + `createTunnelRWC` of target_handler.go over a
+            stream processor and a `net.Conn`;
+* `wcw`   — `NewReadWriteCloserWithCloseWrite(r, w, closeFn, closeWriteFn)`: a wrapper that forwards the half-close. -/
 inductive Kind where
-  | cw | same | split | none
+  | cw | same | split | none | prod | wcw
 deriving DecidableEq, Repr, Inhabited
 
 /-- `tryCloseWrite(conn)` followed, for the wrapper kinds, by `readWriteCloser.CloseWrite()`
@@ -55,6 +64,7 @@ not see the end of this direction until the final `Close` — and nothing else m
 connection, in particular its read side stays open. -/
 def tryCloseWrite : Kind → Bool
   | .cw => true
+  | .wcw => true
   | _ => false
 
 /-- How a scripted side ends; `hold`: a PASSIVE peer — its Read blocks until the relay tells it that the
@@ -178,6 +188,18 @@ def stepsFor (reads : List Bytes) : Nat := reads.flatten.length + reads.length +
 passive peer, let B→A run to its end, give A→B one more turn (a passive A has been told by now)". -/
 def tcpComplete (A B : EP) (σ : List TTok) : List TTok :=
   σ ++ [.ax, .bx] ++ List.replicate (stepsFor A.reads) .a ++ List.replicate (stepsFor B.reads) .b ++ [.a]
+
+/-- `tcpRun A B (tcpComplete A B σ)`, computed without walking through the no-op tail of the completion. -/
+def tcpRunFast (A B : EP) (σ : List TTok) : TcpSt :=
+  let s1 := (σ ++ [TTok.ax, TTok.bx]).foldl (tcpStep A B) (tcpInit A B)
+  let s2 := repeatStep (fun s => tcpStep A B s .a) (stepsFor A.reads) s1
+  let s3 := repeatStep (fun s => tcpStep A B s .b) (stepsFor B.reads) s2
+  tcpStep A B s3 .a
+
+/-- `tunnel.Tunnel.runDataCopy`: the close reason derived from the relay result (an injected error is never
+`io.EOF`): any error → "error", none → "normal". -/
+def tunnelReason (serr rerr : DErr) : String :=
+  if serr != .none || rerr != .none then "error" else "normal"
 
 /-- What the fake sockets and the caller observe. -/
 structure TcpObs where
@@ -346,6 +368,7 @@ def Enc.stepBlocked (e : Enc) (w : Wip) (udpClosed : Bool) (utailEnd : Option Bo
 
 inductive DStop where
   | running | clean | trunc | illegal
+  | werr        -- a Write on the UDP socket failed: `flush()` returned the error, the goroutine left
 deriving DecidableEq, Repr, Inhabited
 
 inductive Variant where
@@ -385,6 +408,18 @@ def decIter (v : Variant) (tailErr fused : Bool) (s : Dec) : Dec :=
         | .asFound => s1                               -- re-reads the tail with the same window: no progress, no exit
     else s1
 
+/-- The UDP socket refuses the Write with index `j` (counted over the run): `flush()` stops at that datagram and
+returns the error; the caller records it (`ReceiveError`; not in the illegal-length branch, which ignores it) and
+the goroutine leaves. `s`: state before the iteration, `d`: the iteration's result had every Write succeeded. -/
+def Dec.cutWrite (d : Dec) (uwfail : Option Nat) (s : Dec) : Dec :=
+  match uwfail with
+  | some j =>
+    if s.out.length ≤ j ∧ j < d.out.length then
+      { d with out := d.out.take j, recv := s.recv + sumLen ((d.out.take j).drop s.out.length), stop := .werr,
+               rerr := d.rerr || d.stop != .illegal }
+    else d
+  | none => d
+
 /-! ## UDP relay: both goroutines -/
 
 structure UdpCase where
@@ -393,6 +428,7 @@ structure UdpCase where
   tchunks : List Bytes
   ttail : Tl
   tfused : Bool
+  uwfail : Option Nat := none   -- the UDP socket refuses the Write with this index
 deriving DecidableEq, Repr
 
 structure UdpSt where
@@ -444,7 +480,7 @@ def udpStepT (v : Variant) (c : UdpCase) (s : UdpSt) (hold : Bool) : UdpSt :=
   if s.dec.done || s.decHeld.isSome then s
   else if s.dec.pending.isEmpty && c.ttail == .hold && !s.cwT && decide (s.dec.buf.length < refill) then s
   else
-    let d := decIter v (c.ttail == .err) (c.tfused && c.ttail != .hold) s.dec
+    let d := (decIter v (c.ttail == .err) (c.tfused && c.ttail != .hold) s.dec).cutWrite c.uwfail s.dec
     if hold && decide (d.out.length > s.dec.out.length) then { s with decHeld := some d }
     else s.commitDec v d
 
@@ -470,11 +506,19 @@ the tunnel side runs to its end, the UDP side gets one more turn (to notice that
 def udpComplete (c : UdpCase) (σ : List UTok) : List UTok :=
   σ ++ [.w, .v] ++ List.replicate (c.uevs.length + 1) .u ++ List.replicate (stepsFor c.tchunks) .t ++ [.u] ++ [.sa]
 
+/-- `udpRun v c (udpComplete c σ)`, computed without walking through the no-op tail of the completion. -/
+def udpRunFast (v : Variant) (c : UdpCase) (σ : List UTok) : UdpSt :=
+  let s0 := (σ ++ [UTok.w, UTok.v]).foldl (udpStep v c) (udpInit c)
+  let s1 := repeatStep (fun s => udpStep v c s .u) (c.uevs.length + 1) s0
+  let s2 := repeatStep (fun s => udpStep v c s .t) (stepsFor c.tchunks) s1
+  udpStep v c (udpStep v c s2 .u) .sa
+
 structure UdpObs where
   ret : Bool
   tun : Bytes               -- everything written to the tunnel, concatenated
   udp : List Bytes          -- datagrams written to the UDP socket
   nread : Nat               -- datagrams the relay took from the UDP socket
+  wfU : Bool                -- the UDP socket refused a Write (environment fault)
   serr : Bool
   rerr : Bool
   sent : Nat
@@ -482,7 +526,7 @@ structure UdpObs where
 deriving DecidableEq, Repr
 
 def udpObs (s : UdpSt) : UdpObs :=
-  { ret := s.returned, tun := s.enc.flushes.flatten, udp := s.dec.out, nread := s.enc.nread,
+  { ret := s.returned, tun := s.enc.flushes.flatten, udp := s.dec.out, nread := s.enc.nread, wfU := s.dec.stop == .werr,
     serr := s.enc.serr, rerr := s.dec.rerr, sent := s.enc.sent, recv := s.dec.recv }
 
 /-- Observation when the local side is the asynchronous `mapping.UDPVirtualConn`: the local application
